@@ -10,3 +10,6 @@ func raceOn()  {}
 
 func RaceOff() {}
 func RaceOn()  {}
+
+func raceReleaseMerge(p *int) {}
+func raceAcquire(p *int)      {}
